@@ -149,27 +149,49 @@ Fixpoint unique_go (items unique_list : list value) : list value :=
 Definition bi_unique (args : list value) : outcome value :=
   do a0 <- arg args 0; do l <- as_list a0; Ok (VList (unique_go l [])).
 
-(* ---------- sort: slice::sort_by is a stable sort; modelled as stable insertion sort ---------- *)
+(* ---------- sort ---------- *)
 (* a.compare(b).unwrap_or(None).unwrap_or(Ordering::Equal) *)
 Definition cmp_or_eq (a b : value) : comparison :=
   match compare a b with Some c => c | None => Eq end.
+Definition is_Lt (c : comparison) : bool := match c with Lt => true | _ => false end.
 
-Section StableSort.
+(* slice::sort_by of std 1.89 (core::slice::sort::stable::sort):
+     len < 2            nothing
+     len <= 20          insertion_sort_shift_left(v, 1, is_less): for every i, the element v[i]
+                        moves left while is_less(v[i], predecessor)
+     len > 20           driftsort — a stable sort whose result is determined only when the
+                        comparator is a total order on the input; otherwise the result is an
+                        unspecified permutation and the call MAY PANIC ("user-provided
+                        comparison function does not correctly implement a total order").
+   The model is the insertion sort (exact for len <= 20 whatever the comparator does; equal to
+   every stable sort when the comparator is a total preorder), and Unmodelled in the class
+   where std's behaviour is unspecified. *)
+Section InsertionSort.
   Context {A : Type}.
-  Variable cmp : A -> A -> comparison.
-  (* x originally stands before every element of [sorted]: it goes in front of the first
-     element that is not smaller than it, so equal elements keep their order *)
-  Fixpoint insert_sorted (x : A) (sorted : list A) : list A :=
-    match sorted with
+  Variable is_less : A -> A -> bool.
+  (* insert_tail: [prefix_rev] is the sorted prefix, last element first *)
+  Fixpoint insert_tail (x : A) (prefix_rev : list A) : list A :=
+    match prefix_rev with
+    | y :: rest => if is_less x y then y :: insert_tail x rest else x :: prefix_rev
     | [] => [x]
-    | y :: rest => match cmp x y with Gt => y :: insert_sorted x rest | _ => x :: y :: rest end
     end.
-  Fixpoint stable_sort (l : list A) : list A :=
-    match l with [] => [] | x :: rest => insert_sorted x (stable_sort rest) end.
-End StableSort.
+  Definition insertion_sort (l : list A) : list A :=
+    rev (fold_left (fun prefix_rev x => insert_tail x prefix_rev) l []).
+End InsertionSort.
+
+(* all pairs comparable (including every element with itself: no NaN): then Value::compare
+   is a total preorder on the elements (proofs/Order.v) *)
+Definition mutually_comparable (l : list value) : bool :=
+  forallb (fun a => forallb (fun b => match compare a b with Some _ => true | None => false end) l) l.
+
+Definition sort_determined (l : list value) : bool :=
+  (length l <=? 20)%nat || mutually_comparable l.
+
+Definition value_less (a b : value) : bool := is_Lt (cmp_or_eq a b).
 
 Definition bi_sort (args : list value) : outcome value :=
-  do a0 <- arg args 0; do l <- as_list a0; Ok (VList (stable_sort cmp_or_eq l)).
+  do a0 <- arg args 0; do l <- as_list a0;
+  if sort_determined l then Ok (VList (insertion_sort value_less l)) else Unmodelled.
 
 Definition bi_reverse (args : list value) : outcome value :=
   do a0 <- arg args 0; do l <- as_list a0; Ok (VList (rev l)).
@@ -374,35 +396,65 @@ Section WithCall.
       end
     else (Ok Eq, st).
 
-  Fixpoint insert_sorted_by (func x : value) (sorted : list value) (st : St)
+  (* insert_tail with the comparator closure; is_less(tail, prev) = (cmp(tail, prev) == Less) *)
+  Fixpoint insert_tail_by (func x : value) (prefix_rev : list value) (st : St)
     : outcome (list value) * St :=
-    match sorted with
+    match prefix_rev with
     | [] => (Ok [x], st)
     | y :: rest =>
         let '(c, st1) := sort_by_cmp func x y st in
         match c with
-        | Ok Gt => let '(res, st2) := insert_sorted_by func x rest st1 in (omap (cons y) res, st2)
-        | Ok _ => (Ok (x :: y :: rest), st1)
+        | Ok Lt => let '(res, st2) := insert_tail_by func x rest st1 in (omap (cons y) res, st2)
+        | Ok _ => (Ok (x :: prefix_rev), st1)
         | Err => (Err, st1) | ErrDepth => (ErrDepth, st1)
         | Panic => (Panic, st1) | Unmodelled => (Unmodelled, st1)
         end
     end.
-  Fixpoint stable_sort_by (func : value) (l : list value) (st : St) : outcome (list value) * St :=
+  Fixpoint insertion_sort_by (func : value) (l prefix_rev : list value) (st : St)
+    : outcome (list value) * St :=
     match l with
-    | [] => (Ok [], st)
+    | [] => (Ok (rev prefix_rev), st)
     | x :: rest =>
-        let '(sorted, st1) := stable_sort_by func rest st in
-        match sorted with
-        | Ok s => insert_sorted_by func x s st1
+        let '(res, st1) := insert_tail_by func x prefix_rev st in
+        match res with
+        | Ok prefix_rev' => insertion_sort_by func rest prefix_rev' st1
         | other => (other, st1)
         end
     end.
+
+  (* len > 20: the keys, one call per item (driftsort's actual number and order of calls is not
+     modelled: the final state is exact only for a callback that does not depend on it) *)
+  Fixpoint keys_of (func : value) (l : list value) (st : St) : outcome (list (value * value)) * St :=
+    match l with
+    | [] => (Ok [], st)
+    | x :: rest =>
+        let '(k, st1) := call VNull func [x] st in
+        match k with
+        | Ok kv => let '(more, st2) := keys_of func rest st1 in (omap (cons (kv, x)) more, st2)
+        | Panic => (Panic, st1)
+        | _ => (Unmodelled, st1)      (* an error is Ordering::Equal: not a total order in general *)
+        end
+    end.
+
+  Definition sort_by_list (func : value) (l : list value) (st : St) : outcome (list value) * St :=
+    if (length l <=? 20)%nat then insertion_sort_by func l [] st
+    else if negb (is_function func) then (Ok l, st)          (* every comparison is Equal *)
+    else
+      let '(keyed, st1) := keys_of func l st in
+      match keyed with
+      | Ok kl =>
+          if mutually_comparable (map fst kl)
+          then (Ok (map snd (insertion_sort (fun a b => value_less (fst a) (fst b)) kl)), st1)
+          else (Unmodelled, st1)
+      | Err => (Err, st1) | ErrDepth => (ErrDepth, st1) | Panic => (Panic, st1)
+      | Unmodelled => (Unmodelled, st1)
+      end.
 
   Definition bi_sort_by (args : list value) (st : St) : outcome value * St :=
     match arg args 1 with
     | Ok func =>
         match obind (arg args 0) as_list with
-        | Ok l => let '(res, st1) := stable_sort_by func l st in (omap VList res, st1)
+        | Ok l => let '(res, st1) := sort_by_list func l st in (omap VList res, st1)
         | Err => (Err, st) | ErrDepth => (ErrDepth, st) | Panic => (Panic, st)
         | Unmodelled => (Unmodelled, st)
         end
